@@ -1,14 +1,35 @@
 import Lattigo.Proofs.EncoderC
 import Lattigo.Proofs.CKKSFixedPoint
+import Lattigo.Proofs.EncoderCFFT
+import Mathlib.RingTheory.RootsOfUnity.Complex
 /-!
 # C07 (approximate half) — CKKS encoder / decoder  (property theorems)
 
-About `Lattigo.EncoderC` (executed by `Driver/C07CKKS.lean`, tied to `schemes/ckks/encoder.go`,
-`utils.go` by `harness/c07_ckks.go` on inputs where the floating-point FFT is exact).
+Model: `Lattigo.EncoderC` (+ `Lattigo.CKKS.fixedPoint`), executed by `Driver/C07CKKS.lean`, tied to
+`schemes/ckks/encoder.go`, `utils.go` by `harness/c07_ckks.go`.
 
-Partial by design (DESIGN §5.7): the float64 / `big.Float` special FFT is not modelled; "decode ∘ encode
-within the working precision" is the measured probe `decode_encode_precision`.  The theorems cover the
-exact parts: fixed-point conversion, centred lift, `decodePublic` rounding, and the index table.
+State of the clauses of the property text (CKKS sentence)
+* "approximate encoding followed by decoding returns every input vector up to the rounding error of the fixed-point
+  conversion at the plaintext scale plus the floating-point error of the encoder's working precision, for every slot
+  count (sparse packing), both ring types, both paths, slot and coefficient domains" —
+  - exact part, PROVED for all inputs: the special DFT and its inverse are mutually inverse in exact arithmetic
+    (`special_dft_decode_encode`, `special_dft_encode_decode`: any field with a primitive `2N`-th root; sparse packing
+    `special_dft_sparse`; the conjugate-invariant ring is the case `2N` with a `4N`-th root); the slots sit at pairwise
+    distinct odd exponents (`orbit_injective`, `rotGroup_nodup`, `conj_exponents_disjoint`, `bitRev_perm`);
+  - rounding part, PROVED: `fixedpoint_roundtrip` (exact rationals, `≤ 1/(2Δ)` per coefficient), `fixedPoint_error`
+    (the conversion AS PERFORMED with `P`-bit floats — the function the driver executes: `1/2 + 3·2^-P(|x|Δ+1)`),
+    `slot_error_of_coeff_error` (coefficient error `B` ⇒ slot error `≤ N·B`), `encode_slot_error` (their composition);
+  - NOT modelled: the butterfly network of `SpecialFFT/IFFT*` and its floating-point error (the exact transform above
+    is its specification; the float64 / big.Float implementation is tied on exactly representable cases by `encslot`,
+    `encpoly` and measured by the probes `decode_encode_precision`, `encoder_precision_history`).
+* "public decoding additionally rounds every value to a multiple of the requested precision" — PROVED on the model
+  function: `decodePublic_multiple`, `decodePublic_nearest` (a nearest multiple, ties away from zero
+  `roundHalfAway_tie`); tied on both precision paths (`roundprec`); coefficient-domain `DecodePublic` ignores
+  `logprec` (known finding).
+* "encoded plaintexts multiply slot-wise" — consequence of `special_dft_decode_encode` + evaluation being a ring
+  homomorphism; stated for the ring in C06 (`phase_Mul`); here probed (`encode_mul_slotwise`).
+Tied only: `enccoef`, `encslot`, `encpoly` layouts (`embedCoeffs`: `encodePoly_conjInv_discards_imag` is the only general
+statement), `bitrev`.
 -/
 namespace Lattigo.Props.C07CKKS
 open Lattigo.EncoderC
@@ -38,6 +59,54 @@ theorem encodePoly_conjInv_discards_imag (N slots : ℕ) (re im im' : List ℤ) 
     encodePoly N true slots re im = encodePoly N true slots re im' := rfl
 example : encodePoly 8 true 2 [3, -5] [7, 7] = [3, 0, 0, 0, -5, 0, 0, 0] ∧
     encodePoly 8 false 2 [3, -5] [7, 9] = [3, 0, -5, 0, 7, 0, 9, 0] := by decide
+
+
+/-! ## the special DFT in exact arithmetic -/
+section
+variable {K : Type*} [Field K] {ζ : K} {N : ℕ}
+
+/-- **decode ∘ encode = id**: for every slot vector `v` the polynomial `interpOdd v` takes the value `v t` at the
+    `t`-th odd power of a primitive `2N`-th root (every `N`, hence every ring degree and every slot count). -/
+theorem special_dft_decode_encode (hζ : IsPrimitiveRoot ζ (2 * N)) (hN : 0 < N) (hNK : (N : K) ≠ 0) (v : ℕ → K)
+    (t : ℕ) (ht : t < N) : evalOdd ζ N (interpOdd ζ N v) t = v t := evalOdd_interpOdd hζ hN hNK v t ht
+/-- **encode ∘ decode = id** on coefficient vectors. -/
+theorem special_dft_encode_decode (hζ : IsPrimitiveRoot ζ (2 * N)) (hN : 0 < N) (hNK : (N : K) ≠ 0) (m : ℕ → K)
+    (k : ℕ) (hk : k < N) : interpOdd ζ N (evalOdd ζ N m) k = m k := interpOdd_evalOdd hζ hN hNK m k hk
+/-- sparse packing: plaintexts in `Y = X^gap`, ring degree `gap·N'`. -/
+theorem special_dft_sparse {gap N' : ℕ} (hζ : IsPrimitiveRoot ζ (2 * (gap * N'))) (hg : 0 < gap) (hN : 0 < N')
+    (hNK : (N' : K) ≠ 0) (v : ℕ → K) (t : ℕ) (ht : t < N') :
+    evalOdd (ζ ^ gap) N' (interpOdd (ζ ^ gap) N' v) t = v t := evalOdd_interpOdd_sparse hζ hg hN hNK v t ht
+end
+/-- the hypotheses are met by `ℂ`, `ζ = e^{2πi/8}`, `N = 4`. -/
+example (v : ℕ → ℂ) (t : ℕ) (ht : t < 4) :
+    evalOdd (Complex.exp (2 * Real.pi * Complex.I / (8 : ℕ))) 4 (interpOdd (Complex.exp (2 * Real.pi * Complex.I / (8 : ℕ))) 4 v) t = v t :=
+  special_dft_decode_encode (N := 4) (Complex.isPrimitiveRoot_exp 8 (by norm_num)) (by norm_num) (by norm_num) v t ht
+
+/-- coefficient error `≤ B` each ⇒ slot error `≤ N·B` (any normed field, `‖ζ‖ = 1`). -/
+theorem slot_error_of_coeff_error {K : Type*} [NormedField K] (ζ : K) (N : ℕ) (hζ : ‖ζ‖ = 1) (m δ : ℕ → K) (B : ℝ)
+    (hδ : ∀ k < N, ‖δ k‖ ≤ B) (t : ℕ) :
+    ‖evalOdd ζ N (fun k => m k + δ k) t - evalOdd ζ N m t‖ ≤ N * B :=
+  Lattigo.EncoderC.slot_error_of_coeff_error ζ N hζ m δ B hδ t
+/-- **Encode then Decode, rounding only**: if the stored coefficients differ from the exact ones `interpOdd v` by at
+    most `B` each (`B = 1/(2Δ)` by `fixedpoint_roundtrip`), every decoded slot differs from `v t` by at most `N·B`. -/
+theorem encode_slot_error {K : Type*} [NormedField K] {ζ : K} {N : ℕ} (hζ : IsPrimitiveRoot ζ (2 * N)) (hN : 0 < N)
+    (hNK : (N : K) ≠ 0) (v δ : ℕ → K) (B : ℝ) (hδ : ∀ k < N, ‖δ k‖ ≤ B) (t : ℕ) (ht : t < N) :
+    ‖evalOdd ζ N (fun k => interpOdd ζ N v k + δ k) t - v t‖ ≤ N * B := by
+  have h1 := Lattigo.EncoderC.slot_error_of_coeff_error ζ N
+    (norm_root_eq_one (by omega : 0 < 2 * N) hζ.pow_eq_one) (interpOdd ζ N v) δ B hδ t
+  rwa [evalOdd_interpOdd hζ hN hNK v t ht] at h1
+
+/-- slot `i` and the conjugate of slot `j` use different exponents (`5^i ≢ −5^j mod 2^k`). -/
+theorem conj_exponents_disjoint (k : ℕ) (hk : 2 ≤ k) (i j : ℕ) : (5 ^ i + 5 ^ j) % 2 ^ k ≠ 0 :=
+  five_pow_ne_neg_five_pow k hk i j
+
+/-- **decodePublic: nearest multiple.**  No multiple of `2^-logprec` is closer to the decoded value. -/
+theorem decodePublic_nearest (num : ℤ) (den logprec : ℕ) (hd : 0 < den) (k' : ℤ) :
+    |(roundToPrec num den logprec : ℚ) / 2 ^ logprec - (num : ℚ) / den|
+      ≤ |(k' : ℚ) / 2 ^ logprec - (num : ℚ) / den| := roundToPrec_nearest num den logprec hd k'
+theorem roundHalfAway_tie (h : ℤ) : roundHalfAway (2 * h + 1) 2 = if 0 ≤ 2 * h + 1 then h + 1 else h :=
+  Lattigo.EncoderC.roundHalfAway_tie h
+example : roundToPrec (-3) 8 2 = -2 ∧ roundToPrec 3 8 2 = 2 ∧ roundToPrec (-23) 10 0 = -2 := by decide
 
 /-- the rounding is to nearest, half away from zero (`trunc(x ± 1/2)`). -/
 theorem roundHalfAway_nearest (num : ℤ) (den : ℕ) (hd : 0 < den) :
@@ -90,3 +159,11 @@ end Lattigo.Props.C07CKKS
 #print axioms Lattigo.Props.C07CKKS.encodePoly_conjInv_discards_imag
 #print axioms Lattigo.Props.C07CKKS.fixedPoint_error
 #print axioms Lattigo.Props.C07CKKS.bitRev_perm
+#print axioms Lattigo.Props.C07CKKS.special_dft_decode_encode
+#print axioms Lattigo.Props.C07CKKS.special_dft_encode_decode
+#print axioms Lattigo.Props.C07CKKS.special_dft_sparse
+#print axioms Lattigo.Props.C07CKKS.slot_error_of_coeff_error
+#print axioms Lattigo.Props.C07CKKS.encode_slot_error
+#print axioms Lattigo.Props.C07CKKS.conj_exponents_disjoint
+#print axioms Lattigo.Props.C07CKKS.decodePublic_nearest
+#print axioms Lattigo.Props.C07CKKS.roundHalfAway_tie
